@@ -36,6 +36,9 @@ fn trace_for(gi: &GInfo, name: &str, kind: Kind, input: &str, full: bool) -> Opt
 
 pub fn check_input(ctx: &mut Ctx, gi: &GInfo, rule: usize, input: &str) -> CaseResult {
     let (name, kind) = gi.rules[rule].clone();
+    if !well_founded(ctx, gi, rule, input, 0, input.len()) {
+        return CaseResult::Ok;
+    }
     for (entry, full) in [(Entry::ParseFullWith, true), (Entry::ParsePartialWith, false), (Entry::CheckFullWith, true)] {
         ctx.ev.eval();
         let t = gi.g.typed(Req { rule, entry, form: Form::Str, deep: false }, input);
